@@ -105,6 +105,8 @@ class RunBundler:
         # a seq_num counter per stream
         self._sequence_counters: dict[Any, int] = dict()  # noqa: C408
         self._sequence_counters_copy: dict[Any, int] = dict()  # for if we redo data-points  # noqa: C408
+        # streams whose events are never re-taken after a rewind (interruptions, monitors, collect)
+        self._unreplayed_streams: set[Any] = set()
         self._monitor_params: dict[Subscribable, tuple[Callback, dict]] = dict()  # noqa: C408  # cache of {obj: (cb, kwargs)}
         # a cache of stream_resource uid to the data_keys that stream_resource collects for
         self._stream_resource_data_keys: dict[str, Iterable[str]] = dict()  # noqa: C408
@@ -147,6 +149,7 @@ class RunBundler:
         if self.record_interruptions:
             # To store the interruptions uid outside of event-model
             self._interruptions_desc_uid = new_uid()
+            self._unreplayed_streams.add("interruptions")
             dk = {"dtype": "string", "shape": [], "source": "RunEngine"}
             descriptor_bundle = self._compose_descriptor(
                 uid=self._interruptions_desc_uid,
@@ -436,6 +439,7 @@ class RunBundler:
 
         await self._ensure_cached(obj)
 
+        self._unreplayed_streams.add(name)
         stream_bundle = await self._prepare_stream(name, {obj: self._describe_cache[obj]})
         compose_event = stream_bundle[1]
 
@@ -482,8 +486,11 @@ class RunBundler:
             self.emit_sync(DocumentNames.event, doc)
 
     def rewind(self):
+        # events of these streams are not re-taken after a rewind: their numbering must go on
+        kept = {k: v for k, v in self._sequence_counters.items() if k in self._unreplayed_streams}
         self._sequence_counters.clear()
         self._sequence_counters.update(self._sequence_counters_copy)
+        self._sequence_counters.update(kept)
         # make sure we do not forget about streams we roll back to the
         # very beginning of
         for desc_key in self._descriptor_objs:
@@ -782,6 +789,7 @@ class RunBundler:
             if stream_name not in self._descriptor_objs or (
                 collect_object not in self._descriptor_objs[stream_name]
             ):
+                self._unreplayed_streams.add(stream_name)
                 await self._prepare_stream(stream_name, {collect_object: stream_data_keys})
             else:
                 objs_read = self._descriptor_objs[stream_name]
@@ -1145,6 +1153,7 @@ class RunBundler:
                         "requires a `name=stream_name` argument"
                     )
                 # Since there are no events or event_pages incrementing the sequence counter, we do it ourselves.
+                self._unreplayed_streams.add(stream_name)
                 self._sequence_counters[stream_name] += indices_difference
 
             if return_payload:
@@ -1152,6 +1161,7 @@ class RunBundler:
 
         else:
             # Since there are no events or event_pages incrementing the sequence counter, we do it ourselves.
+            self._unreplayed_streams.add(stream_name)
             self._sequence_counters[stream_name] += indices_difference
 
     async def backstop_collect(self):
